@@ -327,6 +327,14 @@ example : (readXrefFrom exChainPh 4 300 ([], [])).map (fun r => (r.1.map (·.2.p
   rw [C02_chain exChainPh 300 _ _ hc (by decide) 4 (by decide)]
   rfl
 
+/-- The same with the executable hypothesis the harness evaluates per file (`q.chain`). -/
+theorem C02_chain_checked (ph : Phys) (start fuel' fuel : Nat) (ps : List Nat) (L : List (Section × Trailer))
+    (h : chainOf ph fuel' (some start) = some (ps, L)) (hn : nodupNat ps = true) (hf : ps.length ≤ fuel) :
+    readXrefFrom ph fuel start ([], []) = .ok (L, ps.reverse) :=
+  C02_chain ph start ps L (chainOf_sound ph fuel' _ _ _ h) (nodupNat_sound ps hn) fuel hf
+
+example : (chainOf exChainPh 9 (some 300)).map (·.1) = some [300, 200, 150, 100] := by decide
+
 /-- Non-vacuity for the loaders: `0 2` (free head, object 1) and `5 1`, CR-only line ends, entries
 ending in space-CR, `trailer` followed by the dictionary on the same line. -/
 def exSubs : List Sub := [⟨0, 1, 1, [⟨0, 65535, false⟩, ⟨15, 0, true⟩]⟩, ⟨5, 2, 1, [⟨70, 3, true⟩]⟩]
